@@ -163,7 +163,7 @@ def exhaustive(ctx, fa, maxlen):
 def randomised(ctx, fa, n, maxops):
     import tempfile
     rnd = ctx.sub_rnd("rnd")
-    tmpdir = tempfile.mkdtemp(prefix="verif_c07_", dir=os.path.join(core.VERIF, ".work"))
+    tmpdir = tempfile.mkdtemp(prefix="verif_c07_", dir=core.tlc.WORK)
     codecs = p_file.available_codecs(fa)
     cases = []
     tries = 0
